@@ -130,6 +130,10 @@ def run(prog, rep):
     rep.check("?d odml:hasSection ?s" in joined and "?s odml:hasProperty ?p" in joined, "TAB-10", "kinds related by direct containment", "ok",
               "the Document/Section/Property variables are no longer related by hasSection/hasProperty", pq.where)
 
+    # the containment patterns of the queries rely on the links the exporter writes for every child
+    from .c10 import link_every_iteration
+    link_every_iteration(prog, rep, "TAB-10")
+
     # ----------------------------------------------------------------- KEY-1
     rep.rule("KEY-1", "possible_q_dict_keys == ['Doc', 'Sec', 'Prop']; _prepare_query reads exactly these keys; the fuzzy finder "
                       "iterates QueryCreator.possible_q_dict_keys")
